@@ -533,6 +533,40 @@ def step (kw : List String) (st : St) (op : Op) : St := (stepR kw st op).1
 
 def run (kw : List String) (st : St) (ops : List Op) : St := ops.foldl (step kw) st
 
+/-! ## Spaces that are CREATED with references: `new_space(refs=…)` and `UserSpace.copy`
+
+`SpaceUpdater.new_space(…, refs=…)` builds the space with one `ReferenceImpl` per entry of `refs` (in the order
+of the mapping) and then hands them to `ReferenceManager.add_refs`, which does for each of them what `new_ref`
+does for one: `_valid_to_refs.setdefault(id(value), []).append(ref)` unless the value is an Interface.  Two names
+holding ONE object are two entries of the object's list.  `UserSpace.copy(model, name)`
+(`SpaceUpdater._copy_space_recursively`) is `new_space(refs = the source's own_refs)` followed by a copy of every
+cells.  Neither is a new primitive of the model: each is the HISTORY below (creation of the space, then one
+assignment per reference, then the cells), run until the creation is refused - so every theorem about
+histories (`Props/C18.lean`) speaks about them, and the correspondence checks that the code's one-step
+registration agrees with the assignments one at a time. -/
+
+/-- `model.new_space(name, refs={n₁: v₁, …})` as a history -/
+def newSpaceRefsOps (m s : Nat) (name : String) (refs : List (String × Val)) : List Op :=
+  .newSpace m s name :: refs.map (fun nv => .bind ⟨m, s⟩ nv.1 nv.2)
+
+/-- `source.copy(model, name)` as a history: the references of the source in `own_refs` order, then its cells -/
+def copySpaceOps (st : St) (m src s : Nat) (name : String) : List Op :=
+  newSpaceRefsOps m s name ((st.refs.filter (fun r => r.owner = ⟨m, src⟩)).map (fun r => (r.name, r.val)))
+    ++ (st.cells.filter (fun c => c.1 = ⟨m, src⟩)).map (fun c => .newCells ⟨m, s⟩ c.2.1 c.2.2)
+
+/-- run a composite: when its first operation (the creation of the space) is refused nothing else happens -/
+def runGuarded (kw : List String) (st : St) : List Op → Res
+  | [] => (st, .ok ())
+  | op :: rest =>
+    match stepR kw st op with
+    | (st1, .ok ()) => (rest.foldl (step kw) st1, .ok ())
+    | (st1, .error e) => (st1, .error e)
+
+/-- `source.copy(model, name)`: a deleted (or unknown) source raises before anything happens -/
+def copySpace (kw : List String) (st : St) (m src s : Nat) (name : String) : Res :=
+  if src = 0 || !ownerLive st ⟨m, src⟩ then (st, .error .dead)
+  else runGuarded kw st (copySpaceOps st m src s name)
+
 /-! ## The four triggers (behaviours of the code that break C18), as decidable predicates on
 the state before an operation -/
 
